@@ -21,7 +21,8 @@ from ..framework import hx, unhx
 from ..oracle import cstread
 from .c12 import ALPHABET
 
-GEN_TABLES = ("escape", "max_inline_width", "auto_multiline", "single_binding", "literals", "coerce_order")
+GEN_TABLES = ("escape", "max_inline_width", "auto_multiline", "single_binding", "literals", "coerce_order",
+              "list_item_paren")
 
 NIX_INT_MAX = 2**63 - 1
 INTS = [0, 1, -1, 42, -7, 10, 2**31, -(2**31) - 1, NIX_INT_MAX, -NIX_INT_MAX, 2**63, -(2**63), 10**30]
@@ -327,14 +328,10 @@ def culprits(v, in_list=False, acc=None):
     if isinstance(v, int):
         if abs(v) > NIX_INT_MAX:
             acc.add("int-out-of-range")
-        elif v < 0 and in_list:
-            acc.add("neg-number-in-list")
     elif isinstance(v, float):
         r = repr(v)
         if "." not in r:
             acc.add("float-exponent-no-dot")
-        elif r.startswith("-") and in_list:
-            acc.add("neg-number-in-list")
     elif isinstance(v, list):
         for x in v:
             culprits(x, True, acc)
@@ -344,7 +341,7 @@ def culprits(v, in_list=False, acc=None):
     return acc
 
 
-PRIORITY = ["neg-number-in-list", "float-exponent-no-dot", "int-out-of-range"]
+PRIORITY = ["float-exponent-no-dot", "int-out-of-range"]
 
 
 def neutralise(v, in_list=False):
@@ -354,12 +351,12 @@ def neutralise(v, in_list=False):
     if isinstance(v, int):
         if abs(v) > NIX_INT_MAX:
             return 7
-        return -v if (v < 0 and in_list) else v
+        return v
     if isinstance(v, float):
         r = repr(v)
         if "." not in r:
             return 2.5
-        return -v if (r.startswith("-") and in_list) else v
+        return v
     if isinstance(v, list):
         return [neutralise(x, True) for x in v]
     return {k: neutralise(x, False) for k, x in v.items()}
@@ -485,7 +482,7 @@ def gen_cases(ctx: fw.Ctx):
     witnesses = [mk("list", xs=[-1]), mk("list", xs=[1e16]), mk("binding", k="a", v=1e-07),
                  mk("binding", k="a", v=2**63), mk("fromdict", d={"k": [1, 2]}),
                  mk("binding", 2, True, k="k", v=[[1, 2]]), mk("fromdict", d={"a": 1, "k": [[1, 2]]})]
-    for ent in fw.load_known("C13")[0]:
+    for ent in sum(fw.load_known("C13"), []):  # open findings, and repaired ones as regression inputs
         inp = ent.get("input", {})
         if "context" in inp:
             witnesses.append({"indent": 0, "inline": False, **inp})
